@@ -259,7 +259,7 @@ func runC43(c *eng.Ctx) {
 			n := eng.CalleeName(ci)
 			if strings.HasPrefix(n, "housekeeping.housekeep") {
 				seen[strings.TrimPrefix(n, "housekeeping.")] = true
-				g := eng.WithoutImplied(eng.Guards(ci))
+				g := eng.WithoutImplied(eng.ExpandConjunctions(eng.Guards(ci)))
 				if n == "housekeeping.housekeepAgents" {
 					c.Check("R4", "agents-unless-sidecar", ci.Pos(), eng.HasAtom(g, `^sidecar\.EnvironmentIsSidecar\(\)$`, false) && len(g) == 1, "the agent sweep runs unless in a sidecar", atomsShort(g))
 				} else {
